@@ -181,6 +181,10 @@ def build(repo=None):
                 ob["serves"] = [c[:3]] + (["C12", "C13", "C17"] if c[:3] == "C04" else [])
                 if c.startswith("C12:no-label") or c.startswith("C16:"):
                     ob["serves"] = ["C12", "C16", "C09"]  # the '?' label protocol: a restore obligation, the C16 mechanism, and what later structured checks (C09) need -- a label left behind makes them raise
+                if c.startswith("C12:flatten-mode-is-off"):
+                    # while the flag is set every array annotation accepts on the array type alone: left behind, later shape / dtype verdicts (C01, C02) and
+                    # the errors they should raise (C13) are wrong until the next successful flatten
+                    ob["serves"] = ["C12", "C01", "C02", "C13", "C08"]
                 if c.startswith("C08:the-leaf-loop-enumerates"):
                     ob["serves"] = ["C08", "C16", "C09"]  # leaf POSITIONS are what '?' axes (C16) are keyed by
                 if c.startswith("C12:flatten"):
